@@ -647,7 +647,47 @@ def _rational(t):
     return Poly.atom(key, term), one
 
 
-def ring_proves(goal, hyps, max_rounds=12) -> bool:
+def abstract_outside(t, focus, memo, cache):
+    """replace every maximal subterm that mentions no focus symbol by a fresh constant (same subterm -> same
+    constant).  Proving the abstracted identity proves the original (generalisation)."""
+    def mentions(x):
+        k = x.get_id()
+        if k in cache:
+            return cache[k]
+        r = False
+        if z3.is_app(x):
+            if x.decl().kind() == z3.Z3_OP_UNINTERPRETED and any(f in x.decl().name() for f in focus):
+                r = True
+            else:
+                r = any(mentions(c) for c in x.children())
+        cache[k] = r
+        return r
+
+    def go(x):
+        if _is_const(x) or z3.is_bool(x):
+            return x
+        if not mentions(x):
+            if z3.is_const(x) and x.decl().kind() == z3.Z3_OP_UNINTERPRETED:
+                return x
+            key = x.sexpr()
+            c = memo.get(key)
+            if c is None:
+                c = z3.Const(f"abs#{len(memo)}", x.sort())
+                memo[key] = c
+            return c
+        ch = x.children()
+        if not ch:
+            return x
+        k = x.decl().kind()
+        if k in (z3.Z3_OP_ADD, z3.Z3_OP_SUB, z3.Z3_OP_MUL, z3.Z3_OP_DIV, z3.Z3_OP_UMINUS, z3.Z3_OP_TO_REAL, z3.Z3_OP_ITE,
+                 z3.Z3_OP_POWER):
+            new = [go(c) if not z3.is_bool(c) else c for c in ch]
+            return x.decl()(*new)
+        return x
+    return go(t)
+
+
+def ring_proves(goal, hyps, max_rounds=12, focus=None) -> bool:
     """decide an equality (or conjunction of equalities) between real/int terms by rewriting with the constant
     equalities among the hypotheses and normalising l - r as a polynomial over atoms (x * 1/x cancels: division by
     zero is outside the defined domain, A2).  Sound for proving; says nothing when it fails."""
@@ -670,6 +710,8 @@ def ring_proves(goal, hyps, max_rounds=12) -> bool:
                 break
             t = t2
         t = z3.simplify(t)
+        if focus:
+            t = z3.simplify(abstract_outside(t, focus, {}, {}))
         conds = _ite_conditions(t)
         if len(conds) > 8:
             return False
